@@ -76,6 +76,29 @@ PROPS = {
         "windows/pause/suspended chain, prerun on every tick, init args "
         "carrying cgroup=<instance>; ASan/UBSan guard the discard path.",
     },
+    "C13": {
+        "flavours": ["asan"],
+        "runs": {"quick": 4000, "thorough": 150000},
+        "rule": "one case = base configuration (every combination of drop-in "
+        "permissions, disable-on-drop-in, duplicate names, base prekill hooks) "
+        "+ up to 12 add / re-add / remove / refused-add operations over 4 tags "
+        "(multi-ruleset files, drop-in prekill hooks) spread over 3-10 ticks, "
+        "driven through the real JsonConfigParser, compileDropIn, "
+        "DropInServiceAdaptor and Engine; non-trivial = at least one drop-in "
+        "accepted; distinct = distinct event-log hash",
+        "level_text": "seeded exploration of drop-in operation sequences; "
+        "oracle = reference drop-in model: acceptance/refusal, per-tick call "
+        "order of the scripted plugins (drop-ins newest first, then base "
+        "unless disabled; replaced parts fresh), which prekill hook answers "
+        "for probe cgroups, and oomd.dropin.added after every tick.",
+        "real": ["JsonConfigParser, compileDropIn/compile, "
+                 "DropInServiceAdaptor (harness subclass supplying tick/"
+                 "handle* callbacks), Engine, Ruleset, OomdContext, Stats, "
+                 "Log (inline)"],
+        "stubs": ["harness loop in Oomd::run's order (updateDropIns, context "
+                  "refresh, prerun, runOnce) instead of Oomd::run; virtual "
+                  "clock; world model"],
+    },
     "C06": {
         "flavours": ["asan"],
         "runs": {"quick": 4000, "thorough": 150000},
